@@ -443,13 +443,14 @@ theorem hsv2rgbC4I_alpha (fl : α → Int) (toT : α → Int) (hT : ∀ n : Int,
   rw [hsv2rgbC4I_eq_V3I]; exact scale_roundtrip toT hT M hM c.a
 end
 
-/-- GENUINE DEFECT (DESIGN §7 item 7), already in exact arithmetic: for `T = int` the Color4
-wrappers divide by `float (INT_MAX) = 2^31` but multiply by `INT_MAX = 2^31 - 1`; with the cast
-`(T)` truncating, alpha 5 comes back as 4 (every alpha in 1 … 2^31-2 loses one). -/
-theorem rgb2hsvC4I_int_alpha_defect (r g b : Int) :
-    (rgb2hsvC4I (α := ℚ) (fun n => (n : ℚ) / 2147483648) (fun x => ⌊x * 2147483647⌋) ⟨r, g, b, 5⟩).a = 4 := by
-  rw [rgb2hsvC4I_eq_V3I]
-  show ⌊((5 : Int) : ℚ) / 2147483648 * 2147483647⌋ = 4
+/-- the former defect `Color4<int>` (the wrappers divided by `float (INT_MAX) = 2^31` and multiplied
+by `INT_MAX`, so alpha 5 came back as 4): with `double (INT_MAX) = INT_MAX` alpha is preserved -/
+theorem rgb2hsvC4I_int_alpha_fixed (r g b a : Int) :
+    (rgb2hsvC4I (α := ℚ) (fun n => (n : ℚ) / 2147483647) (fun x => ⌊x * 2147483647⌋) ⟨r, g, b, a⟩).a = a :=
+  rgb2hsvC4I_alpha (α := ℚ) Int.floor Int.floor_intCast 2147483647 (by norm_num) ⟨r, g, b, a⟩
+
+/-- why the divisor matters: dividing by 2^31 and multiplying by 2^31 - 1 loses one -/
+theorem scale_mismatch_loses_one : ⌊((5 : Int) : ℚ) / 2147483648 * 2147483647⌋ = 4 := by
   rw [Int.floor_eq_iff]; norm_num
 
 section
